@@ -30,7 +30,7 @@ EXPLANATION = (
     "delegate; R5 every generated identifier comes from a unique_name() call evaluated per use (never at module/class level or "
     "in a default), and unique_name increments its counter on every call; R6 user text entering an identifier is sanitised; R7 "
     "set_var and push_back cast on a type mismatch; R8 Fill is placed at the mainline scope; R9 injected-code arguments are "
-    "substituted as whole words."
+    "substituted as whole words; R10 shared mechanisms: conditional/boolean results declared before their blocks, injected lines concatenated verbatim, declared method types registered argument by argument."
 )
 ASSUMPTIONS = ["jinja2 renders undefined variables as empty text (default Undefined)", "C++ requires a declaration before use within a block"]
 
@@ -274,3 +274,11 @@ def check(col: Collector, tier: str):
             f"scope_fill definitions {[src(d)[:50] for d in ds]}: a fill scope that follows the last scalar column emits uses of a loop variable before/outside its loop", f.loc)
     # ------------------------------------------------------------ R9 whole-word substitution
     check_substitution(col, repo, "C02.R9")
+    # ------------------------------------------------------------ R10 mechanisms shared with other properties
+    from sa.props._tr import import_obligations
+    import_obligations(col, "C02.R10", "c04", lambda o: o.detail in ("result-declared-before-the-blocks", "result-is-bool-variable"),
+                       "a result variable declared after the test was translated lands in whatever block the test left open, while it is read outside")
+    import_obligations(col, "C02.R10", "c14", lambda o: o.construct == "executor._ib_fetch",
+                       "a dropped or de-duplicated injected line (a second `}` or #endif) leaves the generated file unbalanced")
+    import_obligations(col, "C02.R10", "c10", lambda o: o.rule == "C10.R3",
+                       "a wrong deref count or pointer depth makes every use of the method's result ill-typed")
